@@ -3,7 +3,7 @@
 From Coq Require Import NArith List Bool.
 From StunV Require Import Base.ListAux Base.Bytes Base.Outcome Base.Slice
   Model.MsgType Model.Message Model.Rfc
-  Proofs.RfcProofs Proofs.DecodeProofs Proofs.LookupProofs.
+  Proofs.RfcProofs Proofs.DecodeProofs Proofs.LookupProofs Proofs.TrailerProofs.
 Import ListNotations.
 Open Scope N_scope.
 
@@ -80,3 +80,30 @@ Example C02_nonvacuous :
   snd (decode (set_raw new_msg (slice_of ex_raw [5; 5]))) = Ok tt /\
   map proj (m_attrs (fst (decode (set_raw new_msg (slice_of ex_raw [5; 5]))))) = [(0x20, [7; 8; 9]); (0x8022, [1; 2; 3; 4])].
 Proof. split; [apply SliceProofs.wf_slice_of|]. vm_compute. repeat split. Qed.
+
+(* bytes in front: a well-formed message behind ANY two-byte prefix (the 16-bit length of RFC 4571 stream
+   framing, for one) is not a message, for the grammar and for the decoder *)
+Theorem C02_framed_is_not_a_message : forall m a b msg, wf (m_raw m) -> bytes_ok msg = true ->
+  rfc_accepts msg -> bytes (m_raw m) = a :: b :: msg -> snd (decode m) <> Ok tt.
+Proof.
+  intros m a b msg Hwf Hok Ha. apply framed_decode_fails; [exact Hwf|exact Hok|].
+  apply (rfc_parse_iff msg Hok). exact Ha.
+Qed.
+Print Assumptions C02_framed_is_not_a_message.
+
+(* bytes behind: whatever follows the declared length changes neither the verdict nor what is reported *)
+Theorem C02_trailer_changes_nothing : forall m1 m2 t, wf (m_raw m1) -> wf (m_raw m2) ->
+  bytes (m_raw m2) = bytes (m_raw m1) ++ t ->
+  20 + rd16 (drop 2 (bytes (m_raw m1))) <= lenN (bytes (m_raw m1)) ->
+  (snd (decode m1) = Ok tt <-> snd (decode m2) = Ok tt) /\
+  (forall m1' m2', decode m1 = (m1', Ok tt) -> decode m2 = (m2', Ok tt) ->
+     m_meth m2' = m_meth m1' /\ m_class m2' = m_class m1' /\ m_length m2' = m_length m1' /\
+     m_tid m2' = m_tid m1' /\ map proj (m_attrs m2') = map proj (m_attrs m1')).
+Proof. exact decode_trailer. Qed.
+Print Assumptions C02_trailer_changes_nothing.
+
+Example C02_framed_nonvacuous :
+  let msg := take 36 ex_raw in
+  bytes_ok msg = true /\ (exists r, rfc_parse msg = Some r) /\
+  snd (decode (set_raw new_msg (slice_of (0 :: 36 :: msg) []))) = Err E_COOKIE.
+Proof. vm_compute. repeat split. eexists. reflexivity. Qed.
